@@ -15,6 +15,7 @@ Ys == <<1, -2, 3>>
 YSets == {Ys} \cup (IF Deep THEN { <<0, 3, -1>> } ELSE {})
 Diag(v) == [i \in 1..Len(v) |-> [j \in 1..Len(v) |-> IF i = j THEN v[i] ELSE <<0, 1>>]]
 Sigs(n) == { Diag(Pre(<<<<0, 1>>, <<0, 1>>, <<0, 1>>>>, n)), Diag(Pre(<<<<1, 4>>, <<1, 4>>, <<1, 4>>>>, n)), Diag(Pre(<<<<1, 1>>, <<1, 4>>, <<1, 2>>>>, n)) }
+        \cup (IF n = 2 THEN { << <<<<1, 1>>, <<1, 2>>>>, <<<<1, 2>>, <<1, 1>>>> >> } ELSE {})          \* correlated data errors (two points)
         \cup (IF n = 3 THEN { << <<<<1, 1>>, <<1, 2>>, <<0, 1>>>>, <<<<1, 2>>, <<1, 1>>, <<0, 1>>>>, <<<<0, 1>>, <<0, 1>>, <<1, 4>>>> >> } ELSE {})
 \* a change-point kernel has a position-dependent prior variance (amplitudes 1 and 4 on the two sides); with three kernels the first,
 \* the middle and the last region are weighted differently
@@ -34,6 +35,8 @@ Init == /\ \/ \E X \in Small : \E kn \in Kernels(Len(X[1]), Len(X)), mf \in Mean
                                 sg \in {Diag(<<<<1, 4>>, <<1, 4>>, <<1, 4>>>>), Diag(<<<<1, 1>>, <<1, 4>>, <<1, 2>>>>)} :
                  pb = [X |-> X, y |-> Ys, sig |-> sg, kern |-> kn, mean |-> mf]
         /\ (Focus = "se" => (pb.kern.k = "se" /\ Len(pb.X) <= 2))
+        /\ (Len(pb.X) = 2 /\ pb.sig[1][2] # <<0, 1>>                                      \* correlated errors: the smallest family (32-bit limits)
+               => pb.X = << <<0>>, <<1>> >> /\ pb.kern.k = "se" /\ pb.kern.ja = 0 /\ pb.mean.k = "const")
         /\ (pb.kern.k = "sum" /\ pb.kern.parts[1].k = "cp" /\ Len(pb.kern.parts[1].parts) = 3           \* three-kernel change-point: 32-bit limits
                => pb.X = << <<0>>, <<1>> >> /\ pb.mean.k # "quad" /\ pb.sig[1][1] = pb.sig[2][2])
         /\ cx = FullContext(pb)
